@@ -56,6 +56,35 @@ CHECKS = {
         "Trusts the document grammar in vlib/markup.py to produce only "
         "documents the language accepts, and html.escape as escaping oracle.",
         "DESIGN.md 3/C03"),
+    "C05": (
+        "exploration",
+        "Hypothesis scope-nesting generation + scope-chain reference model; "
+        "stateful (rule-based) model test of utils.Scope",
+        "Nestings of tal:define (local/global/tuple/chained) and tal:repeat "
+        "over colliding names (Python builtins, names used by generated code, "
+        "plain names; pre-bound or not, including falsy values) are rendered "
+        "with probes of every name before, inside and after every element "
+        "and compared with a scope-chain model; reserved names at every "
+        "target position must be rejected at construction and near misses "
+        "accepted; a Hypothesis state machine drives utils.Scope against a "
+        "two-level dictionary model.",
+        "Trusts the scope-chain model; K4 attributed only via the "
+        "flat-dictionary deviation model; macro-related scoping is checked "
+        "under C09.",
+        "DESIGN.md 3/C05"),
+    "C13": (
+        "fault_enumeration",
+        "Hypothesis template generation with planted faults + reference "
+        "interpreter with rollback semantics",
+        "C01-style templates with tal:on-error on random elements and "
+        "failures planted at random expression sites (15 Exception classes, "
+        "rarely KeyboardInterrupt/SystemExit/RecursionError), 9 fallback "
+        "kinds and a recording on_error_handler; rendered text or "
+        "propagating class, the handler-call log and the expression call log "
+        "must equal the reference interpreter's (try / truncate / fallback).",
+        "Trusts the rollback model in vlib/tmodel.py; K5 attributed only if "
+        "the leak deviation model reproduces text, handler log and call log.",
+        "DESIGN.md 3/C13"),
     "C08": (
         "exploration",
         "exhaustive enumeration of (length, position) against closed forms; "
